@@ -5,6 +5,7 @@ import (
 	"slices"
 	"sort"
 	"strconv"
+	"strings"
 
 	"github.com/emirpasic/gods/v2/containers"
 	"github.com/emirpasic/gods/v2/sets"
@@ -39,6 +40,20 @@ func newSetSubj[T comparable](cfg Cfg, d *Dom[T], count bool) *setSubj[T] {
 }
 
 func (s *setSubj[T]) make(vs ...T) sets.Set[T] {
+	if s.cfg.Ctor == "default" && s.cfg.Kind == "treeset" && s.calls == nil {
+		var c any
+		switch v := any(vs).(type) {
+		case []int:
+			c = treeset.New[int](v...)
+		case []string:
+			c = treeset.New[string](v...)
+		case []float64:
+			c = treeset.New[float64](v...)
+		}
+		if m, ok := c.(sets.Set[T]); ok && m != nil {
+			return m
+		}
+	}
 	switch s.cfg.Kind {
 	case "hashset":
 		return hashset.New[T](vs...)
@@ -65,6 +80,12 @@ func (s *setSubj[T]) Fresh() Subject {
 }
 
 func (s *setSubj[T]) class(x T) string {
+	if s.cfg.Elem == "float" { // == conflates -0 and +0 and never finds NaN: no memo
+		if s.cfg.Kind == "treeset" {
+			return s.d.Class(x)
+		}
+		return s.d.Str(x)
+	}
 	if c, ok := s.memo[x]; ok {
 		return c
 	}
@@ -172,6 +193,8 @@ func (s *setSubj[T]) ModelApply(op Op) {
 		}
 	case "Clear":
 		s.m = nil
+	case "Fill":
+		s.modelAdd(s.vals(fillIdx(op.A)))
 	case "New":
 		s.m = nil
 		s.modelAdd(s.vals(op.A))
@@ -210,6 +233,8 @@ func (s *setSubj[T]) Step(op Op, o *Oracle) {
 		s.afterCall(vs)
 	case "Clear":
 		s.s.Clear()
+	case "Fill":
+		s.s.Add(s.vals(fillIdx(op.A))...)
 	case "New":
 		vs := s.vals(op.A)
 		s.s = s.make(vs...)
@@ -297,7 +322,7 @@ func (s *setSubj[T]) check(o *Oracle) {
 		}
 		i := 0
 		for it := setIter(s.s); it.Next(); i++ {
-			if i >= len(vals) || it.Value() != vals[i] || it.Index() != i {
+			if i >= len(vals) || s.d.Str(it.Value()) != s.d.Str(vals[i]) || it.Index() != i {
 				o.Fail("C02", "iterator-sequence", "after %s: iterator element %d (Index()=%d) is %s, Values()=%s", o.cur, i, it.Index(), s.d.Str(it.Value()), joinS(vals, s.d.Str))
 				break
 			}
@@ -348,6 +373,9 @@ func (s *setSubj[T]) Obs() string {
 func (s *setSubj[T]) ObsJSON() string {
 	b, err := s.IO().ToJSON()
 	if err != nil {
+		if strings.Contains(err.Error(), "unsupported value") {
+			return s.Obs() + " json=ERR: unsupported value"
+		}
 		return s.Obs() + " json=ERR:" + err.Error()
 	}
 	if s.cfg.Kind == "hashset" {
